@@ -2,9 +2,12 @@ package main
 
 import (
 	"os"
+	"os/exec"
 	"path/filepath"
+	"syscall"
 
 	"github.com/tonistiigi/fsutil"
+	"github.com/tonistiigi/fsutil/types"
 )
 
 func init() {
@@ -19,6 +22,82 @@ func init() {
 //
 // output: (send_err recv_err hung dest_raw reqs notifs)
 func run0101(in Sx) (out Sx) {
+	unpriv := len(in.L) > 7 && in.L[7].IsTrue() && os.Getuid() == 0
+	work := WorkDir("c01-")
+	defer os.RemoveAll(work)
+	var part Sx
+	if unpriv {
+		part = runUnprivileged("c01-unpriv", in, work)
+	} else {
+		part = transfer0101(in, work)
+	}
+	if len(part.L) != 5 { // set-up failure
+		return part
+	}
+	// the snapshot is always taken by the (privileged) parent, after the transfer
+	snap, err := SnapshotRaw(filepath.Join(work, "dest"), true)
+	if err != nil {
+		return L(part.L[0], part.L[1], part.L[2], L(), L(), S("snapshot: "+err.Error()))
+	}
+	return L(part.L[0], part.L[1], part.L[2], RawListSx(snap), part.L[3], part.L[4])
+}
+
+const unprivID = 1000
+
+// runUnprivileged re-executes the harness as uid/gid 1000 for the transfer phase of one case.
+func runUnprivileged(entry string, in Sx, work string) Sx {
+	if err := os.Chown(work, unprivID, unprivID); err != nil {
+		panic(err)
+	}
+	// every ancestor of work must be searchable by the unprivileged user
+	for d := filepath.Dir(work); d != "/" && d != "."; d = filepath.Dir(d) {
+		if fi, err := os.Stat(d); err == nil && fi.Mode().Perm()&0005 != 0005 {
+			os.Chmod(d, fi.Mode().Perm()|0055)
+		}
+	}
+	inf := filepath.Join(work, "in.sx")
+	outf := filepath.Join(work, "out.sx")
+	if err := os.WriteFile(inf, []byte(in.String()), 0644); err != nil {
+		panic(err)
+	}
+	exe, _ := os.Executable()
+	cmd := exec.Command(exe, "internal", entry, inf, outf, work)
+	cmd.SysProcAttr = &syscall.SysProcAttr{Credential: &syscall.Credential{Uid: unprivID, Gid: unprivID}}
+	if b, err := cmd.CombinedOutput(); err != nil {
+		return L(N(9), N(9), N(0), L(), L(), S("child failed: "+err.Error()+": "+string(b)))
+	}
+	data, err := os.ReadFile(outf)
+	if err != nil {
+		return L(N(9), N(9), N(0), L(), L(), S("no child output"))
+	}
+	o, err := ParseSx(string(data))
+	if err != nil {
+		panic(err)
+	}
+	return o
+}
+
+func init() {
+	internals["c01-unpriv"] = func(args []string) {
+		data, err := os.ReadFile(args[0])
+		if err != nil {
+			panic(err)
+		}
+		in, err := ParseSx(string(data))
+		if err != nil {
+			panic(err)
+		}
+		out := transfer0101(in, args[2])
+		if err := os.WriteFile(args[1], []byte(out.String()), 0644); err != nil {
+			panic(err)
+		}
+	}
+}
+
+// transfer0101 materialises the prior destination (and an on-disk source), runs the real
+// transfer and returns (send_err recv_err hung reqs notifs); 6 elements on a set-up failure.
+func transfer0101(in Sx, work string) (out Sx) {
+	unpriv := len(in.L) > 7 && in.L[7].IsTrue()
 	src := SxView(in.L[0])
 	prior := SxView(in.L[1])
 	merge := in.L[2].IsTrue()
@@ -27,8 +106,6 @@ func run0101(in Sx) (out Sx) {
 	differ := fsutil.DiffType(in.L[5].Int())
 	notify := in.L[6].IsTrue()
 
-	work := WorkDir("c01-")
-	defer os.RemoveAll(work)
 	dest := filepath.Join(work, "dest")
 	if err := os.Mkdir(dest, 0755); err != nil {
 		panic(err)
@@ -53,12 +130,16 @@ func run0101(in Sx) (out Sx) {
 	} else {
 		fs = &MemFS{Roots: src}
 	}
-	res := RunTransfer(TransferCfg{Src: fs, Dest: dest, Merge: merge, Differ: differ, StreamCap: capacity, Notify: notify})
-	snap, err := SnapshotRaw(dest, true)
-	if err != nil {
-		return L(errClass(res.SendErr), errClass(res.RecvErr), Bool(res.Hung), L(), L(), S("snapshot: "+err.Error()))
+	cfg := TransferCfg{Src: fs, Dest: dest, Merge: merge, Differ: differ, StreamCap: capacity, Notify: notify}
+	if unpriv {
+		// an unprivileged receiver cannot chown: rewrite owners to its own id, as callers of Receive do
+		cfg.Filter = func(p string, st *types.Stat) bool {
+			st.Uid, st.Gid = unprivID, unprivID
+			return true
+		}
 	}
-	return L(errClass(res.SendErr), errClass(res.RecvErr), Bool(res.Hung), RawListSx(snap), L(ReqIDs(res.Log)...), NotifsSx(res.Notifs))
+	res := RunTransfer(cfg)
+	return L(errClass(res.SendErr), errClass(res.RecvErr), Bool(res.Hung), L(ReqIDs(res.Log)...), NotifsSx(res.Notifs))
 }
 
 // mutateView derives a "dirty destination" from a source view: drop, retouch, rewrite,
@@ -214,8 +295,30 @@ func genC01(g *Gen) {
 			srcKind = 1
 			cls += "+disk"
 		}
-		in := L(ViewSx(src), ViewSx(prior), Bool(merge), NI(srcKind), NI(Pick(r, []int{0, 1, 32, 64})), NI(0), Bool(r.Chance(30)))
+		unpriv := r.Chance(20)
+		if unpriv {
+			// sender and receiver run in the same unprivileged child: keep the source in memory so that
+			// unreadable source files (mode 000) are not an Open error on the sending side (that is K3, C04)
+			srcKind = 0
+			// no devices (mknod needs privileges), owners = the unprivileged id, some read-only files
+			o.Types = false
+			src = GenView(r, o)
+			if prior != nil {
+				prior = mutateView(r, src, TreeOpts{Names: o.Names})
+			}
+			setOwner(src, unprivID)
+			setOwner(prior, unprivID)
+			cls += "+unpriv"
+		}
+		in := L(ViewSx(src), ViewSx(prior), Bool(merge), NI(srcKind), NI(Pick(r, []int{0, 1, 32, 64})), NI(0), Bool(r.Chance(30)), Bool(unpriv))
 		nontriv := prior != nil && len(WalkEntries(prior)) >= 2
 		g.Emit(0x0101, in, nontriv, cls)
+	}
+}
+
+func setOwner(ns []*MNode, id uint32) {
+	for _, n := range ns {
+		n.Stat.Uid, n.Stat.Gid = id, id
+		setOwner(n.Kids, id)
 	}
 }
